@@ -16,3 +16,4 @@ open Fzf.Props.C09
 #print axioms C09_cursor_on_screen
 #print axioms C09_reload_drops_selection
 #print axioms C09_query_edit_keeps_selection
+#print axioms C09_change_multi
